@@ -33,6 +33,19 @@ def _instances(model):
         yield 'proximal', name, c07b.H7, c07b.I7, b, entries
 
 
+def _poisoned(r):
+    def walk(x):
+        for v in x.vars():
+            if isinstance(v, str) and v.startswith(('uninit', 'garbage')):
+                return True
+            if isinstance(v, tuple):
+                for z in v[1:]:
+                    if hasattr(z, 'vars') and walk(z):
+                        return True
+        return False
+    return walk(r)
+
+
 def evaluate(model, Hcls, Icls, build, entries):
     H = Hcls()
     I = Icls(model, {}, H)
@@ -77,7 +90,13 @@ def evaluate(model, Hcls, Icls, build, entries):
         probs.append('%d entries instead of %d' % (len(got), len(want)))
     else:
         for k, (a, b) in enumerate(zip(got, want)):
-            if not PA.equal_exact(a, b, WIT):
+            if _poisoned(a) or _poisoned(b):
+                probs.append('entry %d %s depends on uninitialised memory: '
+                             '%r' % (k, 'after op(x, out=x)' if _poisoned(a)
+                                     else 'of op(x)', a if _poisoned(a)
+                                     else b))
+                break
+            if not PA.same(a, b, WIT):
                 t = lambda v: (lambda s: s if len(s) < 140 else s[:140] +
                                ' ...')(repr(v))
                 probs.append('entry %d after op(x, out=x) is %s, op(x) '
@@ -98,6 +117,10 @@ def run(rep, model):
                 in ('odl/operator/default_ops.py',
                     'odl/operator/pspace_ops.py',
                     'odl/operator/operator.py'):
+            continue
+        if name.startswith('expr:') and any(k in name for k in (
+                'PartialDerivative', 'Laplacian', 'Gradient', 'Divergence',
+                'Flattening', 'Sampling', 'MatrixOperator')):
             continue
         try:
             r = evaluate(model, Hcls, Icls, b, entries)
